@@ -188,6 +188,18 @@ CHECKS = {
          "valid rows exactly what it gives without the inert rows, and must never select / match an inert row.",
          "Metamorphic relation, no oracle; pack_partitions raising is exempt.",
          "DESIGN.md section 3/C17"),
+ "C19": ("fault_enumeration", "E4",
+         "deviation-bounded exhaustive fault enumeration on the real function over an instrumented fsspec filesystem",
+         "The real pack_partitions_to_parquet runs on VerifFS (a real local filesystem that numbers every outermost call). "
+         "For every configuration (default / external temp dir x with / without empty output partitions x fresh / overwrite) "
+         "EVERY position of the ~80-100 call sequence is hit with every applicable fault kind (OSError, FileNotFoundError "
+         "before the call takes effect; stale listing for ls/find/glob/expand_path), once, R-1 times (within the retry budget) "
+         "and R times (budget exhausted: crash point); thorough adds every pair of faults. Returned => dataset tree, per-file "
+         "rows, partition-bounds metadata and temp directories must equal the fault-free reference; raised => a repeat with "
+         "overwrite=True on a healthy filesystem must yield the reference dataset.",
+         "Faults before effect + stale listings only; Dask synchronous and uuid4 a deterministic counter (determinism asserted "
+         "on every run); differences visible only in the returned lazy frame are not violations.",
+         "DESIGN.md section 3/C19"),
 }
 
 NOT_YET = {}
